@@ -5,11 +5,53 @@ import re, os
 from .core import REPO, read, Undecided
 
 
-def src(rel):
+def src(rel, raw=False):
+    """Source text of a repository file.  Unless raw, one declared normalisation is applied (N1):
+    a pre-increment whose value is unused - the third clause of a for header, or a whole statement -
+    is written as post-increment (`++x)` -> `x++)`, `++x;` -> `x++;`), so both spellings extract alike."""
     p = os.path.join(REPO, rel)
     if not os.path.exists(p):
         raise Undecided("extraction out of date: %s missing" % rel)
-    return read(p)
+    t = read(p)
+    return t if raw else normalise(t)
+
+
+def normalise(t):
+    t = re.sub(r";(\s*)\+\+([A-Za-z_]\w*)(\s*)\)", r";\1\2++\3)", t)
+    t = re.sub(r"(?m)^(\s*)\+\+([A-Za-z_]\w*);", r"\1\2++;", t)
+    return t
+
+
+def _no_comments(t):
+    return re.sub(r"//[^\n]*|/\*.*?\*/", " ", t, flags=re.S)
+
+
+def canon(text, decls, log):
+    """Alpha-renaming of locals (N2): each decl is (regex with k groups, [k canonical names], min matches).
+    The groups capture the names the source gives to locals that are recognised by the SHAPE of their
+    declaration; every whole-word use (not a member access) is renamed to the canonical name the rewrite
+    rules and contracts use.  Capture is excluded: the canonical name must not already occur."""
+    for d in decls:
+        pat, names = d[0], d[1]
+        lo = d[2] if len(d) > 2 else 1
+        ms = list(re.finditer(pat, text, re.S))
+        if len(ms) < lo:
+            raise Undecided("extraction out of date: declaration %r matched %d times (need >= %d)" % (pat, len(ms), lo))
+        if not ms:
+            continue
+        actual = ms[0].groups()
+        for m in ms[1:]:
+            if m.groups() != actual:
+                raise Undecided("extraction out of date: declaration %r names differ between matches (%r / %r)" % (pat, actual, m.groups()))
+        for a, c in zip(actual, names):
+            if a == c:
+                continue
+            if re.search(r"(?<![\w.>:])%s\b" % re.escape(c), _no_comments(text)):
+                raise Undecided("extraction out of date: cannot rename local %r to %r (name already in use)" % (a, c))
+            text, n = re.subn(r"(?<![\w.>:])%s\b" % re.escape(a), c, text)
+            log.append(dict(pattern=pat, replacement="%s -> %s" % (a, c), fired=n, expected="any", kind="local-rename",
+                            note="alpha-renaming of a local recognised by its declaration"))
+    return text
 
 
 def _unique(text, pattern, what, flags=re.S):
@@ -88,6 +130,62 @@ def stmt_at(text, anchor, what):
         raise Undecided("extraction out of date: %s has no brace body" % what)
     e = _match_close(text, k, "{", "}")
     return text[m.start():e + 1]
+
+
+def inline_temps(text, log):
+    """N3: a const REFERENCE alias of a call-free lvalue (`const T &n = std::get<0>(best);`, `const T &n = a[i];`)
+    is replaced by the aliased expression at every use.
+    N4: a const local initialised from an expression and used exactly once, in the statement that immediately
+    follows its declaration (nothing executes in between), is replaced by its initialiser at that use.
+    N5: a const local with a call-free initialiser over names never written later in the region: inlined everywhere."""
+    while True:
+        m = re.search(r"\bconst [\w:<>, ]+?&\s*(\w+) = ((?:std::get<\d>\(\w+\)|\w+(?:\[[^\];]+\])*));[ \t]*\n?", text)
+        if not m:
+            break
+        name, expr = m.group(1), m.group(2)
+        rest = text[:m.start()] + text[m.end():]
+        rest, n = re.subn(r"(?<![\w.>:])%s\b" % re.escape(name), expr, rest)
+        log.append(dict(pattern="const T &%s = %s;" % (name, expr), replacement=expr, fired=n, expected="any", kind="alias-inline",
+                        note="reference alias replaced by the aliased expression"))
+        text = rest
+    # N5: a const local whose initialiser is call-free and reads only names that are never written in the
+    # region after the declaration is replaced by its initialiser at every use
+    pos = 0
+    while True:
+        m = re.compile(r"\bconst (?:bool|auto|int|std::size_t|size_type|\w+) (\w+) = ([^;{}]+);[ \t]*\n?").search(text, pos)
+        if not m:
+            break
+        name, expr = m.group(1), m.group(2)
+        after = _no_comments(text[m.end():])
+        ids = set(re.findall(r"[A-Za-z_]\w*", expr))
+        call_free = not re.search(r"[A-Za-z_]\w*\s*[(\[<]", expr) and "++" not in expr and "--" not in expr and "&" not in expr
+        written = any(re.search(r"(?<![\w.>:])%s\s*(?:[-+*/%%|&^]?=(?!=)|\+\+|--)|(?:\+\+|--|&)\s*%s\b" % (re.escape(i), re.escape(i)), after) for i in ids)
+        if call_free and ids and not written:
+            rest, n = re.subn(r"(?<![\w.>:])%s\b" % re.escape(name), "(" + expr + ")", text[m.end():])
+            text = text[:m.start()] + rest
+            log.append(dict(pattern="const T %s = %s;" % (name, expr), replacement="(%s)" % expr, fired=n, expected="any", kind="temp-inline",
+                            note="const temporary over names never written afterwards replaced by its initialiser"))
+            pos = m.start()
+        else:
+            pos = m.end()
+    pos = 0
+    while True:
+        m = re.compile(r"\bconst (?:bool|auto|int|std::size_t|size_type|\w+) (\w+) = ([^;{}]+);\s*").search(text, pos)
+        if not m:
+            break
+        name, expr = m.group(1), m.group(2)
+        uses = [u.start() for u in re.finditer(r"(?<![\w.>:])%s\b" % re.escape(name), text)]
+        uses = [u for u in uses if u >= m.end() or u < m.start()]
+        nxt = re.compile(r"[;{]").search(text, m.end())
+        if len(uses) == 1 and nxt and m.end() <= uses[0] < nxt.start() and "++" not in expr and "--" not in expr and not re.search(r"[^=!<>]=[^=]", expr):
+            u = uses[0]
+            text = text[:m.start()] + text[m.end():u] + "(" + expr + ")" + text[u + len(name):]
+            log.append(dict(pattern="const T %s = %s;" % (name, expr), replacement="(%s)" % expr, fired=1, expected="any", kind="temp-inline",
+                            note="single-use const temporary used in the next statement replaced by its initialiser"))
+            pos = m.start()
+        else:
+            pos = m.end()
+    return text
 
 
 def rewrite(text, rules, log):
